@@ -94,6 +94,63 @@ def json_document_correspondence(run, d, raw, stats, mism, what):
         mism.append(dict(what=what, real=raw.strip()[:300], model=r[0][:300], decode=r[1], wf=r[2]))
 
 
+def large_result_set(run, stats):
+    """thousands of reported combinations: row i must still belong to combination i (JSON), and every text block must
+    carry the row of its own entity"""
+    root = C.scratch("c15big")
+    try:
+        n = 1300 if run.depth == "quick" else 5000
+        os.makedirs(os.path.join(root, "src"))
+        for c in range(2):
+            open(os.path.join(root, "src", "Big%d.java" % c), "w").write(
+                "class Big%d {\n%s}\n" % (c, "".join("    void m_%d_%04d() { }\n" % (c, i) for i in range(n // 2))))
+        q = 'FROM method_declaration AS md SELECT md.getName(), "tag"'
+        for mode, args in (("json", ["--output", "json"]), ("text", [])):
+            out = os.path.join(root, "out." + mode)
+            rc, so, se = C.cli(["query", "--project", root, "--query", q, "--disable-metrics", "--output-file", out] + args, timeout=300)
+            stats["large_result_runs"] += 1
+            run.count(("large", mode, n))
+            if rc != 0 or not os.path.exists(out):
+                run.violation("C15:cli-failed", "CLI exits %s on a query with %d results in %s mode" % (rc, n, mode), dict(query=q, results=n, mode=mode))
+                continue
+            raw = open(out, encoding="utf-8", errors="replace").read()
+            bad = total = 0
+            example = None
+            if mode == "json":
+                try:
+                    doc = json.loads(raw)
+                except Exception:
+                    run.violation("C15:bad-json", "the report of a query with %d results is not one well-formed JSON document" % n, dict(query=q, results=n))
+                    continue
+                rs, rows = doc.get("result_set", []), doc.get("output", [])
+                total = len(rs)
+                if len(rows) != len(rs) or len(rs) != n:
+                    run.violation("C15:row-count", "%d output rows for %d combinations (%d methods)" % (len(rows), len(rs), n), dict(query=q, results=n))
+                    continue
+                for e, row in zip(rs, rows):
+                    m = re.search(r"void (m_\d_\d+)\(", e["code"])
+                    if not m or row != [m.group(1), "tag"]:
+                        bad += 1
+                        example = example or dict(entity=e["code"], line=e["line"], row=row)
+            else:
+                blocks = parse_text(raw)
+                total = len(blocks)
+                if total != n:
+                    run.violation("C15:row-count", "%d text blocks for %d results" % (total, n), dict(query=q, results=n))
+                    continue
+                for b in blocks:
+                    code = " ".join(t for _, t in b["code"])
+                    m = re.search(r"void (m_\d_\d+)\(", code)
+                    if not m or b["result"] != m.group(1) + " | tag | ":
+                        bad += 1
+                        example = example or dict(entity=code, line=b["line"], row=b["result"])
+            if bad:
+                run.violation("C15:row-of-other-combination", "%d of %d rows belong to another combination than the one they are listed with (%s mode, %d results)" % (bad, total, mode, n),
+                              dict(query=q, results=n, mode=mode, example=example))
+    finally:
+        shutil.rmtree(root, ignore_errors=True)
+
+
 def run(run):
     C.build_driver()
     h, d = C.Harness(), C.Driver()
@@ -280,6 +337,7 @@ def run(run):
         shutil.rmtree(outdir, ignore_errors=True)
         h.close()
         d.close()
+    large_result_set(run, stats)
     run.extra["histogram"] = dict(stats)
     if mism:
         pass
